@@ -47,7 +47,7 @@ var run *common.Run
 const watchdog = 30 * time.Second
 
 // a watchdog expiry is re-confirmed on a fresh destination with this (longer) bound before it is reported
-const watchdogConfirm = 75 * time.Second
+const watchdogConfirm = 45 * time.Second
 
 // hangs counts confirmed watchdog expiries; generation stops after the first one
 var hangs int
@@ -1366,7 +1366,7 @@ func main() {
 	}
 	r := run.Rand
 	graphs := run.Scale(1500, 5000)
-	for i := 0; i < graphs && hangs < 2; i++ {
+	for i := 0; i < graphs && hangs < 1; i++ {
 		var g *dag.Graph
 		if i%3 == 2 {
 			g = fanGraph(r)
@@ -1463,6 +1463,9 @@ func replay(path string) {
 		panic(err)
 	}
 	for _, c := range doc.Cases {
+		if hangs > 0 {
+			break // one confirmed hang is enough (each costs both watchdog bounds)
+		}
 		var probe map[string]json.RawMessage
 		if json.Unmarshal(c, &probe) != nil {
 			continue
